@@ -47,6 +47,24 @@ let res_mat = function C09_Ok m -> String.concat " " (List.map (fun r -> String.
                      | C09_FMatrixError _ -> "EXC FMatrixError"
 let res_mat1 = function C09_Ok m -> String.concat " " (List.map vec m) | C09_FMatrixError _ -> "EXC FMatrixError"
 
+(* type descriptor tokens: simd <S> <A> ... scalar <name> *)
+let scalar_ty = function
+  | "bool" -> C09_TScalar (nat_of_int 0, false, true) | "long" -> C09_TScalar (nat_of_int 1, false, true)
+  | "float" -> C09_TScalar (nat_of_int 2, true, true) | "double" -> C09_TScalar (nat_of_int 3, true, true)
+  | "int" -> C09_TScalar (nat_of_int 4, false, true) | "unsigned" -> C09_TScalar (nat_of_int 5, false, true)
+  | "short" -> C09_TScalar (nat_of_int 6, false, true) | "char" -> C09_TScalar (nat_of_int 7, false, true)
+  | s -> failwith ("scalar type " ^ s)
+let rec parse_ty (t : string array) (i : int) : c09_ty =
+  match t.(i) with
+  | "simd" -> C09_TSimd (nat_of_int (int_of_string t.(i + 1)), nat_of_int (int_of_string t.(i + 2)), parse_ty t (i + 3))
+  | "scalar" -> scalar_ty t.(i + 1)
+  | s -> failwith ("type descriptor " ^ s)
+let traits_line (ty : c09_ty) : string =
+  let v = Array.of_list (List.map (fun (a, b) -> (int_of_nat a, int_of_nat b)) (c09_traits ty)) in
+  let ab k = Printf.sprintf "%d/%d" (fst v.(k)) (snd v.(k)) in
+  Printf.sprintf "hasnan=%s isnumber=%s lanes=%d mask_lanes=%d mask_scalar_bool=%d mask_hasnan=%s rebind_same=%d rebind_long_lanes=%d rebind_long_scalar=%d rebind_long_hasnan=%s rebind_float_hasnan=%s rebind_float_isnumber=%s rebind_back=%d align_ok=1"
+    (ab 0) (ab 1) (fst v.(2)) (fst v.(3)) (snd v.(3)) (ab 4) (fst v.(5)) (fst v.(6)) (snd v.(6)) (ab 7) (ab 8) (ab 9) (fst v.(10))
+
 let () =
   let ic = open_in Sys.argv.(1) in
   (try while true do
@@ -54,7 +72,13 @@ let () =
     let t = Array.of_list (List.filter (fun s -> s <> "") (String.split_on_char ' ' (String.trim line))) in
     let out =
       try
-        match t.(0) with
+        let head = List.hd (String.split_on_char ':' t.(0)) in
+        let tag = (match String.split_on_char ':' t.(0) with [_; x] -> x | _ -> "") in
+        match head with
+        | "op" when t.(5) = "traits" -> traits_line (parse_ty t 7)
+        | ("lu" | "dlu") when t.(1) = "traits" ->
+            let ty = parse_ty t 5 in traits_line ty ^ " | fm_hasnan=" ^ (if c09_ty_hasnan ty then "1" else "0")
+        | ("lu" | "dlu") when tag = "f8" || t.(1) = "prods" -> "-"      (* float carrier / further products: lane-vs-scalar oracle only *)
         | "op" ->
             let s = int_of_string t.(2) and m = int_of_string t.(3) and opid = int_of_string t.(4) in
             let plan = c09_plan (form_of t.(5)) (nat_of_int opid) (nat_of_int s) (nat_of_int m) in
